@@ -52,7 +52,7 @@ func testCondOK(ctx *Ctx, v *any, ok *bool, args []any) {
 		*ok = false
 		return
 	}
-	if fin, ok1 := args[0].(**testobj.TestFinance); ok1 && *fin != nil {
+	if fin, ok1 := args[0].(**testobj.TestFinance); ok1 && fin != nil && *fin != nil {
 		c := ctx.GetCounter("__testUserNextHistory999counter")
 		if c < 0 || c >= len((*fin).History) {
 			*ok = false
